@@ -93,8 +93,10 @@ def restored(p, effs):
     """does the path re-establish every option-level location touched by the effects from values saved before the first effect"""
     first = p.events.index(effs[0][0])
     touched = set()
-    for _, _, flds in effs:
-        touched |= set(f for f in flds if f in OPTION_LEVEL)
+    for e_, _, flds in effs:
+        touched |= set(f for f in flds if f in OPTION_LEVEL and not (f == 'comment' and e_.kind == 'call'))
+        # (the annotation: a callee reaches it only through the dropping of defaults, which keeps it - R10.4; the field-name
+        # based MOD summary cannot tell, an explicit store to it counts)
         if flds & {'value', 'values[]', 'string', 'section', 'number', 'fpnumber', 'boolean'}:
             touched.add('values')
     # saved copies: a by-value copy into a local before the first effect, or loads stored in locals
